@@ -46,6 +46,7 @@ uint64_t g_clock_reads = 0;
 sim::FaultKind g_fault_kind = sim::F_NONE;
 int g_fault_countdown = -1;
 bool g_fault_fired = false;
+bool g_fault_sticky = false;   // a disk that stays full / broken: every write-class call after the first failing one fails too
 
 uint64_t g_perturb_state = 0;
 int g_perturb_pm = 0;
@@ -114,6 +115,7 @@ inline bool perturb() {
 
 // returns F_NONE or the fault to apply to this write-class call
 sim::FaultKind take_fault() {
+    if (g_fault_kind != sim::F_NONE && g_fault_fired && g_fault_sticky && (g_fault_kind == sim::F_EIO || g_fault_kind == sim::F_ENOSPC)) return g_fault_kind;
     if (g_fault_kind == sim::F_NONE || g_fault_fired) return sim::F_NONE;
     if (g_fault_countdown > 0) { g_fault_countdown--; return sim::F_NONE; }
     g_fault_fired = true;
@@ -158,13 +160,13 @@ void disk_forget(const std::string &p) {
     g_paths[i]->write_calls = 0; g_paths[i]->any_calls = 0; g_paths[i]->last_flags = -1; g_paths[i]->write_opens = 0;
 }
 
-void disk_arm_fault(FaultKind kind, int nth) {
-    g_fault_kind = kind; g_fault_countdown = nth; g_fault_fired = false;
+void disk_arm_fault(FaultKind kind, int nth, bool sticky) {
+    g_fault_kind = kind; g_fault_countdown = nth; g_fault_fired = false; g_fault_sticky = sticky;
     g_cnt.faults_armed++;
 }
 bool disk_disarm_fault() {
     bool f = g_fault_fired;
-    g_fault_kind = F_NONE; g_fault_countdown = -1; g_fault_fired = false;
+    g_fault_kind = F_NONE; g_fault_countdown = -1; g_fault_fired = false; g_fault_sticky = false;
     return f;
 }
 void disk_set_perturb(uint64_t seed, int per_mille) { g_perturb_state = seed; g_perturb_pm = per_mille; }
